@@ -201,6 +201,13 @@ func RunC09(r *core.Rng, run uint64, seed uint64, tier string, cov *Cov) []*Viol
 		// on the delivery schedule
 		cov.Probe("malformed-dump")
 	}
+	if r.Chance(0.03) {
+		// a byte order mark glued to the first line of the stream (no structure
+		// is claimed for such a stream: purely differential)
+		cov.Probe("bom-prefixed-stream")
+		b := append([]byte("\xef\xbb\xbf"), gen.Render(doc).Bytes...)
+		return runC09Stream(r, nil, &gen.Stream{Bytes: b, Lines: rawLines(b)}, run, seed, tier, cov)
+	}
 	return runC09Doc(r, doc, run, seed, tier, cov)
 }
 
